@@ -4,7 +4,7 @@ from ..contracts_api import ContractDB
 
 def build_db():
     db = ContractDB()
-    from . import render, html, attrs, children, helpers, tagify, hooks, document, serial
+    from . import render, html, attrs, children, helpers, tagify, hooks, document, serial, jsx
     render.register(db)
     html.register(db)
     attrs.register(db)
@@ -14,6 +14,7 @@ def build_db():
     hooks.register(db)
     document.register(db)
     serial.register(db)
+    jsx.register(db)
     return db
 
 
